@@ -9,7 +9,7 @@ from simkit.progs import ALL_FEATURES, HEADER, Gen, GenConfig, RawProgram
 from simkit.runner import RunOutcome
 
 
-def gen_twin_program(ch: Choices, p_raise: float = 0.2) -> RawProgram:
+def gen_twin_program(ch: Choices, p_raise: float = 0.2, groups: bool = False) -> RawProgram:
     """
     Targeted family: the same few leaf calls reached directly, through delay chains (so that
     they arrive before / while / after their twin runs), through wrappers that opt out
@@ -65,6 +65,17 @@ def gen_twin_program(ch: Choices, p_raise: float = 0.2) -> RawProgram:
 
     n = 3 + ch.choice(4, "nitems")
     items = [item() for _ in range(n)]
+    if groups:
+        # tasks whose raw result is a collection of lazy calls, sharing some members with each
+        # other and with t0's own list (recorded collections with common subvalues)
+        for j in range(1 + ch.choice(2, "ngroups")):
+            members = [item() for _ in range(2 + ch.choice(2, "group-size"))]
+            if ch.coin(0.7, "group-shares-member"):
+                members.insert(ch.choice(len(members) + 1, "shared-pos"),
+                               items[ch.choice(len(items), "shared-item")])
+            L.append(f"@task()\ndef grp{j}():\n    return [{', '.join(members)}]\n\n")
+            items.insert(ch.choice(len(items) + 1, "group-pos"), f"grp{j}()")
+        n = len(items)
     if ch.coin(0.3, "seq-barrier"):
         k = 1 + ch.choice(n - 1, "seq-split")
         expr = f"[seq([{', '.join(items[:k])}]), {', '.join(items[k:])}]"
